@@ -25,6 +25,9 @@ H2  symbolic mode in {read, write, overwrite} x file exists/missing x filename g
     'write' never replaces an existing file; remove() only for temporary / overwrite objects,
     never in read mode; untouched files keep their content.
 H3  export(filename, overwrite) x exists.
+H2b anonymous temporary files whose generated name may collide with an existing file (tempfile
+    candidate names stubbed as an arbitrary choice, symbolic Bool 'collides').
+H3c the shortcut oqupy.pt_tempo_compute x unique x overwrite x exists x named/temporary.
 H3b the PT-TEMPO entry point (real PtTempo.__init__ / _init_file_process_tensor) x overwrite x
     exists x named/temporary.
 """
@@ -547,6 +550,178 @@ class H3b(Case):
         return obs
 
 
+class _TempfileStub:
+    """stand-in for the module global `tempfile` of oqupy.process_tensor (sym/frac AND real mode):
+    the directory is the workspace, the candidate names are chosen by the harness.  Contract
+    assumed of tempfile._get_candidate_names(): arbitrary names -- nothing guarantees that a
+    candidate does not name an existing file (another process, an earlier run)."""
+    dir = None
+    names = ()
+
+    def _get_default_tempdir(self):
+        if self.dir is None:
+            raise RuntimeError("tempfile stand-in used outside a harness run")
+        return self.dir
+
+    def _get_candidate_names(self):
+        return iter(list(self.names))
+
+    def __getattr__(self, n):
+        import tempfile
+        return getattr(tempfile, n)
+
+
+TEMPFILE = _TempfileStub()
+ENV_TMP = {"noconj": False, "np_proxy_modules": ENV_PT["np_proxy_modules"],
+           "extra": dict(ENV_PT["extra"], **{"oqupy.process_tensor.tempfile": TEMPFILE})}
+REAL_ENV_TMP = {"oqupy.process_tensor.tempfile": TEMPFILE}
+TMP_STUB_TEXT = ("tempfile._get_default_tempdir/_get_candidate_names of oqupy.process_tensor -> workspace directory and "
+                 "harness-chosen candidate names (arbitrary, may name an existing file)",)
+
+
+class H2b(Case):
+    """anonymous (temporary) files: filename=None with mode 'write', resp. PtTempo(process_tensor_file=True,
+    overwrite=False).  The generated name is an arbitrary candidate and may collide with an existing
+    file (symbolic Bool): the existing file must never be truncated/replaced."""
+    functions = ("FileProcessTensor.__init__", "FileProcessTensor._create_file", "PtTempo._init_file_process_tensor", "PtTempo.__init__",
+                 "FileProcessTensor.remove")
+    stubs = h5stub.STUB_TEXT + TMP_STUB_TEXT
+    assumptions = ("temporary-file candidate names are arbitrary and may name an existing file",)
+    env = ENV_TMP
+    real_env = REAL_ENV_TMP
+    ENTRIES = ("FileProcessTensor(mode='write', filename=None)", "PtTempo._init_file_process_tensor(None, False)",
+               "PtTempo(process_tensor_file=True, overwrite=False)")
+
+    def __init__(self):
+        self.id = "H2b/temporary_name_collides"
+        self.bounds = {"entry": list(self.ENTRIES), "collides": [True, False]}
+
+    def run(self, inp):
+        import oqupy
+        obs = []
+        with Workspace(inp) as ws:
+            e = inp.int("entry", 0, 2)
+            col = inp.bool("collides")
+            entry, collides = int(e), bool(col)
+            TEMPFILE.dir, TEMPFILE.names = ws.dir, ("cand0", "cand1", "cand2")
+            G = ws.path("pt_cand0.hdf5")            # the name the generator will come up with first
+            old, _, _ = build_pt(inp, "o", 2, 2, 2, 4, False, dt=0.5)
+            old.name = "old content"
+            if collides:
+                old.export(G)
+            obj = err = None
+            try:
+                try:
+                    if entry == 0:
+                        obj = ptm.FileProcessTensor(mode="write", filename=None, hilbert_space_dimension=2, dt=0.1)
+                    elif entry == 1:
+                        obj = PtTempoShell(inp.const(np.identity(2))).file(None, False)
+                    else:
+                        bath, par = _api_objects()
+                        obj = oqupy.PtTempo(bath, 0.0, 0.3, par, process_tensor_file=True, overwrite=False)._process_tensor
+                except Exception as ex_:  # noqa
+                    err = ex_.with_traceback(None)
+                created = obj is not None
+                info = "%s, first candidate name %s; %s" % (self.ENTRIES[entry], "exists" if collides else "is free",
+                                                           "raised %r" % (err,) if err is not None else "created %s" % obj.filename)
+                obs.append(Ob.holds("colliding temporary name: refused (FileExistsError) or another name is used",
+                                    implies(col, (not created) or obj.filename != G), info=info))
+                obs.append(Ob.holds("free temporary name: the file-backed object is created", implies(_not(inp, col), created), info=info))
+                if created:
+                    obs.append(Ob.holds("temporary file exists", ws.exists(obj.filename)))
+                    target = obj.filename
+                    rerr = None
+                    try:
+                        obj.remove()
+                    except Exception as ex_:  # noqa
+                        rerr = ex_.with_traceback(None)
+                    obj = None
+                    if not (collides and target == G):
+                        obs.append(Ob.holds("remove() deletes the temporary file", rerr is None and not ws.exists(target), info=repr(rerr)))
+                if collides:
+                    obs += _intact("existing file with the colliding name", ws, G, old, col)
+            finally:
+                close_quietly(obj)
+                TEMPFILE.dir, TEMPFILE.names = None, ()
+        return obs
+
+
+class H3c(Case):
+    """the shortcut oqupy.pt_tempo_compute(bath, ..., unique=, process_tensor_file=, overwrite=) (a real,
+    small PT-TEMPO computation with a concrete bath) x symbolic unique x overwrite x exists x
+    named/temporary: an existing file is replaced only if overwrite was requested (whatever `unique` is)."""
+    functions = ("pt_tempo.pt_tempo_compute", "PtTempo.__init__", "PtTempo._init_file_process_tensor", "PtTempo.compute",
+                 "PtTempo.get_process_tensor", "FileProcessTensor._create_file", "FileProcessTensor.remove")
+    stubs = h5stub.STUB_TEXT + TMP_STUB_TEXT + ("tensornetwork numpy backend svd -> exact non-truncating factorisation",)
+    env = ENV_TMP
+    real_env = REAL_ENV_TMP
+
+    def __init__(self):
+        self.id = "H3c/pt_tempo_compute_unique_x_overwrite_x_exists_x_named"
+        self.bounds = {"unique": [True, False], "overwrite": [True, False], "exists": [True, False], "filename": ["given", "temporary"],
+                       "N": 3, "dkmax": 2}
+
+    def run(self, inp):
+        import oqupy
+        obs = []
+        with Workspace(inp) as ws:
+            un = inp.bool("unique")
+            ow = inp.bool("overwrite")
+            ex = inp.bool("exists")
+            named = inp.bool("named")
+            unique, overwrite, exists, given = bool(un), bool(ow), bool(ex), bool(named)
+            TEMPFILE.dir, TEMPFILE.names = ws.dir, ("tmp0", "tmp1")
+            F = ws.path("target.hdf5")
+            old, _, _ = build_pt(inp, "o", 2, 2, 2, 4, False, dt=0.5)
+            old.name = "old content"
+            if exists:
+                old.export(F)
+            bath, par = _api_objects()
+            obj = err = None
+            try:
+                try:
+                    obj = oqupy.pt_tempo_compute(bath, 0.0, 0.3, par, unique=unique, process_tensor_file=(F if given else True),
+                                                 overwrite=overwrite, progress_type="silent", name="new content")
+                except Exception as ex_:  # noqa
+                    err = ex_.with_traceback(None)
+                created = obj is not None
+                refused = _and(inp, ex, named, _not(inp, ow))
+                info = "unique=%s overwrite=%s exists=%s filename %s: %s" % (unique, overwrite, exists, "given" if given else "temporary",
+                                                                              "raised %r" % (err,) if err is not None else "returned")
+                obs.append(Ob.holds("pt_tempo_compute onto an existing file without overwrite is refused with FileExistsError",
+                                    implies(refused, isinstance(err, FileExistsError)), info=info))
+                obs.append(Ob.holds("pt_tempo_compute succeeds otherwise", implies(_not(inp, refused), created), info=info))
+                if exists and not (overwrite and given):
+                    obs += _intact("existing file not replaced by pt_tempo_compute", ws, F, old, _not(inp, _and(inp, ow, named)))
+                if created:
+                    obs.append(Ob.holds("file-backed process tensor returned", isinstance(obj, ptm.FileProcessTensor) and ws.exists(obj.filename)))
+                    obs.append(Ob.holds("temporary name differs from the given one", given or obj.filename != F))
+                    obs.append(Ob.holds("length", len(obj) == 3))
+                    target = obj.filename
+                    entitled_f = _or(inp, ow, _not(inp, named))
+                    rerr = None
+                    try:
+                        obj.remove()
+                    except Exception as ex_:  # noqa
+                        rerr = ex_.with_traceback(None)
+                    obj = None
+                    obs.append(Ob.holds("remove() refused for a named file computed without overwrite",
+                                        implies(_not(inp, entitled_f), rerr is not None and ws.exists(target)), info=info + " / %r" % (rerr,)))
+                    obs.append(Ob.holds("remove() deletes a temporary / overwrite-mode file",
+                                        implies(entitled_f, rerr is None and not ws.exists(target)), info=info + " / %r" % (rerr,)))
+                    if not (overwrite or not given) and ws.exists(target):
+                        r = read_back(target, "file")
+                        obs.append(Ob.holds("file kept after refused remove() holds the new process tensor",
+                                            r["obj"] is not None and len(r["obj"]) == 3 and r["obj"].name == "new content"))
+                        close_quietly(r["obj"])
+                    if exists and not given:
+                        obs += _intact("other file after remove() of the temporary", ws, F, old, True)
+            finally:
+                close_quietly(obj)
+                TEMPFILE.dir, TEMPFILE.names = None, ()
+        return obs
+
+
 def cases(tier):
     cs = []
     cs += [H1("writing_flag", "export", 1, "file", rank=3), H1("writing_flag", "export", 2, "simple", rank=4),
@@ -555,7 +730,7 @@ def cases(tier):
            H1("clean", "pt_tempo", 2, "simple", K=None), H1("clean", "pt_tempo", 2, "file", K=1)]
     cs += [H1("exception", "export", 2, "file", rank=3, exc="OSError"), H1("exception", "export", 1, "simple", rank=4, exc="KeyboardInterrupt"),
            H1("exception", "pt_tempo", 2, "file", K=None, exc="OSError")]
-    cs += [H2(), H3(), H3b("init"), H3b("api")]
+    cs += [H2(), H3(), H3b("init"), H3b("api"), H2b(), H3c()]
     if tier == "thorough":
         cs += [H1("exception", "export", 3, "simple", rank=4, exc="MemoryError"), H1("exception", "export", 3, "file", rank=3, exc="KeyboardInterrupt"),
                H1("exception", "export", 2, "simple", rank=4, exc="OSError"),
